@@ -560,13 +560,78 @@ func typeName(t types.Type) string {
 func fieldName(v ssa.Value) (string, ssa.Value, bool) {
 	switch x := v.(type) {
 	case *ssa.FieldAddr:
-		st := x.X.Type().Underlying().(*types.Pointer).Elem().Underlying().(*types.Struct)
-		return st.Field(x.Field).Name(), x.X, true
+		pt := x.X.Type().Underlying().(*types.Pointer).Elem()
+		st := pt.Underlying().(*types.Struct)
+		return stableFieldName(pt, st, x.Field), x.X, true
 	case *ssa.Field:
 		st := x.X.Type().Underlying().(*types.Struct)
-		return st.Field(x.Field).Name(), x.X, true
+		return stableFieldName(x.X.Type(), st, x.Field), x.X, true
 	}
 	return "", nil, false
+}
+
+// stableFieldName: the field's name, or - for an unexported field of a repo struct that was merely renamed (same
+// position and type as on the reviewed tree, old name gone, see fieldAnchors) - the name the rules know it by.
+func stableFieldName(t types.Type, st *types.Struct, idx int) string {
+	f := st.Field(idx)
+	name := f.Name()
+	if f.Exported() {
+		return name
+	}
+	named, ok := t.(*types.Named)
+	if !ok || named.Obj().Pkg() == nil {
+		return name
+	}
+	key := named.Obj().Pkg().Path() + "." + named.Obj().Name()
+	old, ok := fieldAnchors[strings.TrimPrefix(key, modulePath+"/")]
+	if !ok {
+		return name
+	}
+	for _, o := range old {
+		if strings.HasPrefix(o, name+":") {
+			return name // the name is a known one
+		}
+	}
+	q := func(p *types.Package) string { return p.Path() }
+	tf := f
+	if o := named.Origin(); o != nil && o != named {
+		// an instance of a generic struct: compare with the declared (uninstantiated) field types
+		if ost, ok := o.Underlying().(*types.Struct); ok && idx < ost.NumFields() {
+			tf = ost.Field(idx)
+		}
+	}
+	ts := types.TypeString(tf.Type(), q)
+	// same position, same type, and the old name no longer exists in the struct
+	if idx < len(old) {
+		on, ot, _ := strings.Cut(old[idx], ":")
+		if ot == ts && !hasField(st, on) {
+			return on
+		}
+	}
+	// or the only old field of that type whose name is gone
+	cand := ""
+	for _, o := range old {
+		on, ot, _ := strings.Cut(o, ":")
+		if ot == ts && !hasField(st, on) {
+			if cand != "" {
+				return name
+			}
+			cand = on
+		}
+	}
+	if cand != "" {
+		return cand
+	}
+	return name
+}
+
+func hasField(st *types.Struct, name string) bool {
+	for i := 0; i < st.NumFields(); i++ {
+		if st.Field(i).Name() == name {
+			return true
+		}
+	}
+	return false
 }
 
 // loadOfField: v is *(&X.f) or X.f ; returns field name and base.
